@@ -1,5 +1,4 @@
-INIT InitFamily
-NEXT Next
+SPECIFICATION Spec
 CONSTANTS
   Wide = TRUE
 INVARIANT NumLaws
